@@ -80,6 +80,15 @@ def c01_shapes(tier):
         # grouped flags behind one dash
     for words, items in ((['-fg'], ['f=1', 'g=1']), (['-gf'], ['f=1', 'g=1']), (['-fg', '-n', S(0)], ['f=1', 'g=1', 'n=#0']), (['-gfn', S(0)], ['f=1', 'g=1', 'n=#0'])):
         shapes.append(('hx_pa', [0, 0], 'c01/' + ' '.join(w.replace('\x01', '@') for w in words), {'pa_tmpl': tmpl('ok', items + ['s=_', 'o=-', 'v=_'], ['d2'], words)}))
+    # values starting with a dash: only the glued and the '=' spellings are unambiguous
+    for words, slots, items in ((['-n' + S(0)], ['i3'], ['n=#0']), (['--number=' + S(0)], ['i3'], ['n=#0']), (['--num=' + S(0)], ['i2'], ['n=#0']), (['-o' + S(0)], ['i3'], ['o=#0']), (['-fn' + S(0)], ['i2'], ['f=1', 'n=#0']),
+                                (['-s' + S(0)], ['i3'], ['s=$0']), (['--name=' + S(0), '-g'], ['i3'], ['s=$0', 'g=1']), (['-v' + S(0) + ',' + S(1)], ['i2', 'd2'], ['v=#0,#1'])):
+        shapes.append(('hx_pa', [0, 0], lab('c01', words), {'pa_tmpl': tmpl('ok', items, slots, words)}))
+    # keys that are prefixes of each other, every definition order
+    for perm in range(6):
+        for k, dst in (('--in', 'n'), ('--in-file', 'm'), ('--in-dir=', 'l'), ('--in-d', 'l'), ('--outp', 'u')):
+            words = [k + S(0)] if k.endswith('=') else [k, S(0)]
+            shapes.append(('hx_pa_order', [perm, 0], lab('c01/order%d' % perm, words), {'pa_tmpl': tmpl('ok', ['%s=#0' % dst], ['d2'], words)}))
     return shapes
 
 
@@ -170,6 +179,8 @@ def c02_shapes(tier):
                          (['--number=' + S(0), '-n', S(1)], ['d2', 'd2']), (['-n', S(0)], ['a2']), (['-o', S(0)], ['a1']), (['-v', S(0) + ',' + S(1)], ['d1', 'a1']), (['-f', '-f'], []), (['-fgf'], []),
                          (['-f', S(0)], ['s2']), (['--flag=' + S(0)], ['d1']), (['-n', S(0), S(1)], ['d2', 's2']), (['--nam', S(0), '--na', S(1)], ['s2', 's2']), (['--n', S(0)], ['d2']), (['--nu', S(0), '--n', S(1)], ['d2', 'd2'])):
         shapes.append(('hx_pa', [0, 0], lab('c02/cfg0', words), {'pa_tmpl': tmpl('throw', [], slots, words)}))
+    for words, slots in ((['-l', S(0), '-s', S(1)], ['d2', 's2']), (['-s', S(0), '-l', S(1), S(2)], ['s2', 'd1', 'd1']), (['-f'], []), (['-n', S(0)], ['d2'])):
+        shapes.append(('hx_pa', [10, 0], lab('c02/cfg10', words), {'pa_tmpl': tmpl('throw', [], slots, words)}))
     # abbreviations disabled
     for words, slots in ((['--numbe', S(0)], ['d2']), (['--fla'], []), (['--nam=' + S(0)], ['s2'])):
         shapes.append(('hx_pa', [0, 1], lab('c02/noabbr', words), {'pa_tmpl': tmpl('throw', [], slots, words)}))
@@ -186,6 +197,10 @@ def c03_shapes(tier):
                                 (['--in-d=' + S(0)], ['d2'], ['l=#0']), (['--out', S(0), '--in-dir', S(1)], ['d2', 'd3'], ['u=#0', 'l=#1']), (['--o', S(0)], ['d1'], ['u=#0']),
                                 (['--in', S(0), '--in-file', S(1), '--in-dir', S(2)], ['d1', 'd2', 'd3'], ['n=#0', 'm=#1', 'l=#2'])):
         shapes.append(('hx_pa', [5, 0], lab('c03/cfg5', words), {'pa_tmpl': tmpl('ok', items, slots, words)}))
+    for words, slots, items in ((['-l', S(0), S(1)], ['d2', 'd2'], ['v=#0,#1']), (['-l', S(0), S(1), S(2), '-f', S(3)], ['d1', 'd2', 'd2', 'd3'], ['v=#0,#1,#2', 'f=1', 'fv=#3']),
+                                (['--list', S(0) + ',' + S(1), '-n', S(2), S(3)], ['d1', 'd2', 'd2', 'd3'], ['v=#0,#1', 'n=#2', 'fv=#3']), (['-s', S(0), '-f', S(1)], ['s2', 'd2'], ['s=$0', 'f=1', 'fv=#1']),
+                                ([S(0), '-l', S(1), S(2)], ['d1', 'd2', 'd2'], ['fv=#0', 'v=#1,#2'])):
+        shapes.append(('hx_pa', [10, 0], lab('c03/cfg10', words), {'pa_tmpl': tmpl('ok', items, slots, words)}))
     # full keys with abbreviations disabled
     for words, slots, items in ((['--number', S(0), '--flag'], ['d2'], ['n=#0', 'f=1']), (['--name=' + S(0)], ['s3'], ['s=$0'])):
         shapes.append(('hx_pa', [0, 1], lab('c03/noabbr', words), {'pa_tmpl': tmpl('ok', items, slots, words)}))
@@ -209,6 +224,8 @@ def c04_shapes(tier):
         n = max([int(c) for w in pat for c in re.findall('\x01(\\d)', w)] + [-1]) + 1
         for cfg, fl in ((0, 0), (0, 2)):
             shapes.append(('hx_pa', [cfg, fl], lab('c04/f%d' % fl, pat), {'pa_tmpl': tmpl('safe', [], ['b2'] * n, pat)}))
+    for words, slots in ((['-z', S(0)], ['d1']), (['-z', S(0)], ['d2']), (['-z', S(0) + ',' + S(1)], ['r2:08:12', 'r2:60:66']), (['-z', S(0), '-z', S(1)], ['r2:13:16', 'r3:126:130']), (['--vbool=' + S(0) + ',' + S(1)], ['r3:126:129', 'r3:190:194'])):
+        shapes.append(('hx_pa', [6, 0], lab('c04/vbool', words), {'pa_tmpl': tmpl('safe', [], slots, words)}))
     for n in ((1, 2, 3) if tier == 'quick' else (1, 2, 3, 4, 5)):
         shapes.append(('hx_split_any', [n, 0], 'c04/split_any%d' % n))
     # sources: environment variable with arbitrary content; program-argument file that cannot be opened
@@ -251,6 +268,17 @@ def c06_shapes(tier):
         shapes.append(('hx_pa', [6, 3 << 8], lab('c06/clear+sort', words), {'pa_tmpl': tmpl('ok', ['v=' + ','.join(reversed(vals))], rev, words)}))
         shapes.append(('hx_pa', [6, 2 << 8], lab('c06/sort', words), {'pa_tmpl': tmpl('ok', ['v=7,' + ','.join(reversed(vals))], rev, words)}))
         shapes.append(('hx_pa', [6, 16 << 8], lab('c06/sep;', [w.replace(',', ';') for w in words]), {'pa_tmpl': tmpl('ok', ['v=7,' + ','.join(vals)], R[:n], [w.replace(',', ';') for w in words])}))
+    # the same cuts on an initially empty container (no previous content to clear)
+    for words, n in cuts:
+        ew = [w.replace('--values', '--empty').replace('-v', '-e') for w in words]
+        vals = ['#%d' % i for i in range(n)]
+        for opt, name in ((0, 'plain'), (1, 'clear'), (2, 'sort-asc'), (4, 'unique')):
+            shapes.append(('hx_pa', [6, opt << 8], lab('c06/empty/' + name, ew), {'pa_tmpl': tmpl('ok', ['c=' + ','.join(vals), 'v=7'], R[:n], ew)}))
+    # multi-value argument: values, then a flag, then a free value (goes to the free-value argument, not to the container)
+    for opt, words, items in ((64 | 32, ['-v', S(0), S(1), '-f', S(2)], ['v=7,#0,#1', 'fv=#2', 'f=1']), (64 | 32, ['-e', S(0), '-f', S(1), S(2)], ['c=#0', 'fv=#1,#2', 'f=1']),
+                              (64 | 32, ['-e', S(0) + ',' + S(1), S(2), '-f'], ['c=#0,#1,#2', 'f=1', 'fv=_']), (64 | 32, [S(0), '-e', S(1), '--flag', S(2)], ['c=#1', 'fv=#0,#2', 'f=1']),
+                              (64 | 32 | 1, ['-e', S(0), S(1), '-f', '-e', S(2)], ['c=#0,#1,#2', 'f=1']), (64, ['-v', S(0), S(1)], ['v=7,#0', 'fv=#1'])):
+        shapes.append(('hx_pa', [6, opt << 8], lab('c06/multi', words), {'pa_tmpl': tmpl('ok', items, R[:3], words)}))
     # unique: the same slot twice
     for words in (['-v', S(0) + ',' + S(1) + ',' + S(0)], ['-v', S(0), '-v', S(1), '-v', S(0)], ['-v', S(0) + ',' + S(0)]):
         exp = ['v=7,#0,#1'] if S(1) in ' '.join(words) else ['v=7,#0']
@@ -272,6 +300,9 @@ def c06_shapes(tier):
     shapes.append(('hx_pa', [6, 0], 'c06/bitset', {'pa_tmpl': tmpl('ok', ['bs=5'], [], ['-b', '0,2'])}))
     shapes.append(('hx_pa', [6, 0], 'c06/bitset symbolic', {'pa_tmpl': tmpl('ok', [], ['r1:0:7'], ['-b', S(0)])}))
     shapes.append(('hx_pa', [6, 0], 'c06/bitset beyond size', {'pa_tmpl': tmpl('throw', [], ['r1:8:9'], ['-b', S(0)])}))
+    for words, slots, items in ((['-z', S(0)], ['r1:0:9'], ['vb=#0']), (['-z', S(0)], ['r2:10:12'], ['vb=#0']), (['-z', S(0) + ',' + S(1)], ['r2:10:20', 'r2:60:70'], ['vb=#0,#1']),
+                                (['-z', S(0), '--vbool', S(1)], ['r3:127:129', 'r3:190:193'], ['vb=#0,#1'])):
+        shapes.append(('hx_pa', [6, 0], lab('c06/vbool', words), {'pa_tmpl': tmpl('ok', items, slots, words)}))
     # free values routed to the free-value argument
     shapes.append(('hx_pa', [6, 64 << 8], 'c06/free values', {'pa_tmpl': tmpl('ok', ['fv=#0,#1', 'f=1'], ['d2', 'd2'], [S(0), '-f', S(1)])}))
     shapes.append(('hx_pa', [6, (64 | 32) << 8], 'c06/multi-value', {'pa_tmpl': tmpl('ok', ['v=7,#0,#1,#2', 'f=1'], R[:3], ['-v', S(0), S(1), S(2), '-f'])}))
@@ -315,6 +346,15 @@ def c08_shapes(tier):
     for words, slots, items in ((['-f', '-g'], [], ['f=1', 'g=1']), (['-n', S(0), '-s', S(1)], ['d2', 's2'], ['n=#0', 's=$1']), (['--values=' + S(0) + ',' + S(1), '-o', S(2)], ['d1', 'd2', 'd3'], ['v=#0,#1', 'o=#2']),
                                 (['-gf'], [], ['f=1', 'g=1']), (['--nam', S(0), '--num', S(1)], ['s2', 'd2'], ['s=$0', 'n=#1'])):
         shapes.append(('hx_pa_group', [0, 0], lab('c08/ok/cfg0', words), {'pa_tmpl': tmpl('ok', items, slots, words)}))
+    for opt, words, slots, exp, items in ((32, ['-v', S(0), S(1), '-t', S(2), S(3)], ['d1', 'd2', 'd2', 'd2'], 'throw', []), (32, ['-v', S(0), S(1), '-t', S(2)], ['d1', 'd2', 'd2'], 'ok', ['v=7,#0,#1', 'st=#2']),
+                                          (32 | 64, ['-v', S(0), S(1), '-f', S(2)], ['d1', 'd2', 'd2'], 'ok', ['v=7,#0,#1', 'f=1', 'fv=#2']), (32, ['-e', S(0), '-a', S(1), '-e', S(2), S(3)], ['d1', 'd2', 'd2', 'd2'], 'ok', ['c=#0,#2,#3']),
+                                          (32, ['-a', S(0), S(1)], ['d1', 'd2'], 'throw', [])):
+        for entry in ('hx_pa', 'hx_pa_group'):
+            shapes.append((entry, [6, opt << 8], lab('c08/%s/cfg6' % entry, words), {'pa_tmpl': tmpl(exp, items, slots, words)}))
+    for words, slots, exp, items in ((['-l', S(0), S(1), '-f', S(2)], ['d1', 'd2', 'd3'], 'ok', ['v=#0,#1', 'f=1', 'fv=#2']), (['-l', S(0), '-s', S(1)], ['d2', 's2'], 'throw', []), (['-n', S(0), '-l', S(1), S(2)], ['d2', 'd1', 'd1'], 'ok', ['n=#0', 'v=#1,#2'])):
+        shapes.append(('hx_pa_group', [10, 0], lab('c08/cfg10', words), {'pa_tmpl': tmpl(exp, items, slots, words)}))
+    for m in (3, 4, 5):
+        shapes.append(('hx_pa_group_dup', [m, 0], 'c08/duplicate key, later-created handler defines it first (%d)' % m))
     shapes.append(('hx_pa_group_dup', [0, 0], 'c08/duplicate key short'))
     shapes.append(('hx_pa_group_dup', [1, 0], 'c08/duplicate key long'))
     shapes.append(('hx_pa_group_dup', [2, 0], 'c08/distinct keys'))
